@@ -12,6 +12,13 @@ def run(tier, seed, limit=0):
     if limit:
         scs = scs[:limit]
     chk.run_scenarios(scs, MODULE, fn=RUNNER, batch_events=2500)
+    # the claims that quantify over EVERY sample sequence, decided on the requirement machine itself: two structures of
+    # one class, instances created at any time, any value sampled on any instance (weights / thresholds per tier)
+    chk.run_mc("MC_VscCov", {"MaxInst": 2, "MaxHits": 2, "AtL": 2, "W1": 2, "W2": 1}, workers=12,
+               label="coverage machine: range, monotone, 100 <=> all covered, type >= instance, separate types")
+    if tier != "quick":
+        chk.run_mc("MC_VscCov", {"MaxInst": 2, "MaxHits": 2, "AtL": 1, "W1": 0, "W2": 3}, workers=12, label="coverage machine, weight 0 item")
+        chk.run_mc("MC_VscCov", {"MaxInst": 3, "MaxHits": 1, "AtL": 1, "W1": 1, "W2": 1}, workers=12, label="coverage machine, three instances")
     return chk.finish(LEVEL, "random bin specifications (explicit bins, arrays with/without count, unordered/adjacent disjoint ranges, "
                       "ignore/illegal sets, auto-bins with auto_bin_max, enum, iff, signed types) each sampled with every value of the "
                       "type plus repeats and gated-off samples; TLC recomputes Partition(Values \\ Excluded, n) and every counter after "
